@@ -407,7 +407,16 @@ def searcher(ctx, cfg, b, w_impl, pred_impl, rec):
         # 2 tol_ro bounds the rounding of K(Xnew, basis) @ weights for GIVEN kernel entries; evaluated among 5000 rows the entries
         # themselves are rounded differently (other blocking of |x|^2 - 2xy + |y|^2): a margin of 1e-7 of the magnitude of the
         # terms is added (support comparison; observed differences <= 1e-10, a row mix-up changes the value by O(1))
-        tolm = 2 * tol_ro[idxb] + 1e-7 * ((np.abs(Ks) @ np.abs(w_impl))[idxb] + np.abs(pred_impl[idxb]) + 1.0)
+        # ... derived as in C06.kdiag_tol: squared distance error 4(d+2)u(|x|^2+|y|^2), distance error that over the distance (or its
+        # square root), kernel error (1.5 / ls) times that - it matters for the non-smooth Exponential kernel at near-coincident rows
+        xb_ = np.asarray(b["xu"], dtype=float)
+        dq_ = Xq.shape[1]
+        x2q_, x2b_ = np.sum(Xq * Xq, axis=1)[:, None], np.sum(xb_ * xb_, axis=1)[None, :]
+        sq_ = np.maximum(x2q_ + x2b_ - 2 * Xq @ xb_.T, 0.0)
+        dsq_ = 4 * (dq_ + 2) * U * (x2q_ + x2b_)
+        ddist_ = np.minimum(dsq_ / np.sqrt(sq_ + 1e-12), np.sqrt(dsq_))
+        eK_ = (1.5 / cfg["ls"]) * ddist_ * (1 + np.abs(Ks)) + 8 * (dq_ + 2) * U * (np.abs(Ks) + (x2q_ + x2b_) / cfg["ls"] ** 2)
+        tolm = 2 * tol_ro[idxb] + (2 * eK_ @ np.abs(w_impl))[idxb] + 1e-9 * ((np.abs(Ks) @ np.abs(w_impl))[idxb] + np.abs(pred_impl[idxb]) + 1.0)
         if big.shape[0] != 5000 or (devb > tolm).any():
             ib = int(np.argmax((devb - tolm).max(axis=1))) if big.shape[0] == 5000 else -1
             ctx.violation(key + "|many-rows", "among 5000 query rows, a row's value differs from the value of the same row in a small batch",
